@@ -57,9 +57,19 @@ impl StateCheck for C06 {
         if multi_systems > 0 && declared.len() > 1 {
             feats_common.push("multi_service_system_beside_another");
         }
+        // systems all of whose uses are non-EPB (NEPB / COGEN): they serve no EPB service, so "all of it on the
+        // one service" and "counted as EPB use" cannot both apply; outside the property (DESIGN.md, reading decisions)
+        let mut outside: BTreeSet<i32> = BTreeSet::new();
         for (id, dv) in &declared {
             out.compared += 1;
-            let services: BTreeSet<String> = decls.iter().filter(|d| d.kind == Kind::Used && d.id == *id).map(|d| d.srv.clone()).collect();
+            let all_services: BTreeSet<String> = decls.iter().filter(|d| d.kind == Kind::Used && d.id == *id).map(|d| d.srv.clone()).collect();
+            let services: BTreeSet<String> = all_services.iter().filter(|s| *s != "NEPB" && *s != "COGEN").cloned().collect();
+            let has_nonepb = services.len() != all_services.len();
+            if has_nonepb && services.is_empty() {
+                out.regime("system_without_epb_service");
+                outside.insert(*id);
+                continue;
+            }
             let got = after.get(id).cloned().unwrap_or_default();
             // per-step sum preserved
             let mut tot = vec![0.0; n];
@@ -95,7 +105,15 @@ impl StateCheck for C06 {
             if !(0..n).all(|i| (tot[i] - dvp[i]).abs() <= t) {
                 out.viol("per_system_per_step_sum_preserved", &feats, "", format!("system {id}: after assignment {tot:?} by service {got:?}"), format!("declared {dvp:?}"));
             }
-            if services.len() == 1 {
+            // one EPB service beside non-EPB uses: the auxiliaries belong to that service when the declared outputs
+            // name no other one; with outputs for services the system has no use for, the statement does not decide
+            let outputs_within = q.keys().all(|s| services.contains(s));
+            if has_nonepb {
+                out.regime("epb_and_non_epb_uses_on_one_system");
+            }
+            if services.len() == 1 && has_nonepb && !outputs_within {
+                out.regime("undecided_split");
+            } else if services.len() == 1 {
                 out.regime("single_service");
                 let s = services.iter().next().unwrap();
                 let ok = got.len() <= 1 && got.get(s).map(|v| (0..n).all(|i| (v.get(i).copied().unwrap_or(0.0) - dvp[i]).abs() <= t)).unwrap_or(dvp.iter().all(|x| *x == 0.0));
@@ -141,9 +159,20 @@ impl StateCheck for C06 {
             feats.push("aux_is_only_electricity");
             out.regime("feature:aux_is_only_electricity");
         }
-        for v in declared.values() {
-            add_into(&mut epb_el, v);
+        for (id, v) in &declared {
+            if !outside.contains(id) {
+                add_into(&mut epb_el, v);
+            }
         }
+        // auxiliaries of the systems outside the property may or may not be EPB use: a band
+        let mut epb_hi = epb_el.clone();
+        for (id, v) in &declared {
+            if outside.contains(id) {
+                add_into(&mut epb_hi, v);
+            }
+        }
+        epb_hi.resize(n, 0.0);
+        epb_el.resize(n, 0.0);
         for lm in [false, true] {
             out.evals += 1;
             match subj::eval(&comps, subj::fset("PENINSULA"), 0.0, 1.0, lm) {
@@ -152,7 +181,7 @@ impl StateCheck for C06 {
                     let got: Vec<f64> = ep.balance_cr.get(&Carrier::ELECTRICIDAD).map(|b| b.used.epus_t.iter().map(|x| *x as f64).collect()).unwrap_or_default();
                     let mut g = got.clone();
                     g.resize(n, 0.0);
-                    if !(0..n).all(|i| (g[i] - epb_el[i]).abs() <= t) {
+                    if !(0..n).all(|i| g[i] >= epb_el[i] - t && g[i] <= epb_hi[i] + t) {
                         out.viol("counted_in_balance_as_epb_electricity", &feats, format!("load_matching={lm}"), format!("balance_cr[ELECTRICIDAD].used.epus_t = {got:?}"), format!("EPB electricity uses + declared auxiliaries = {epb_el:?}"));
                     }
                 }
@@ -183,6 +212,9 @@ fn aux_alphabet() -> Vec<Letter> {
         al.push(Letter::many(vec![a(Some(2), &v), u(Some(2), "ACS", "GASNATURAL", &k(&[1, 1])), u(Some(2), "CAL", "GASNATURAL", &k(&[1, 1])), o(2, "ACS", &k(&[1, 1])), o(2, "CAL", &k(&[1, 3]))]));
         al.push(Letter::many(vec![a(Some(2), &v), u(Some(2), "CAL", "GASNATURAL", &k(&[1, 1])), u(Some(2), "REF", "ELECTRICIDAD", &k(&[1, 1])), o(2, "CAL", &k(&[3, 0])), o(2, "REF", &[-100, -100])]));
     }
+    // non-EPB and cogeneration uses on system 1: they are not services the auxiliaries can go to
+    al.push(Letter::one(u(Some(1), "NEPB", "ELECTRICIDAD", &k(&[2, 2]))));
+    al.push(Letter::many(vec![u(Some(1), "COGEN", "GASNATURAL", &k(&[4, 4])), p(Some(1), "EL_COGEN", &k(&[1, 1]))]));
     // legacy (system 0) lines, PV
     al.push(Letter::one(a(None, &k(&[1, 1]))));
     al.push(Letter::one(u(None, "ACS", "GASNATURAL", &k(&[1, 1]))));
